@@ -25,7 +25,9 @@ impl SimdUnaryOp<f32> for Erf {
     fn eval<I: Isa>(&self, isa: I, x: I::F32) -> I::F32 {
         let ops = isa.f32();
 
-        let neg_mask = ops.lt(x, ops.zero());
+        // Sign bit of the input. erf is odd, so the result for negative inputs
+        // (including -0.0) is computed as -erf(-x).
+        let sign = ops.and(x, ops.splat(-0.0));
 
         let x = ops.abs(x);
 
@@ -52,7 +54,7 @@ impl SimdUnaryOp<f32> for Erf {
 
         // Approximation is valid only for x >= 0. For negative values approximation
         // can be computed as -erf(-x).
-        ops.select(ops.neg(y), y, neg_mask)
+        ops.xor(y, sign)
     }
 }
 
